@@ -56,12 +56,9 @@ def run(ctx):
     ctx.cov["evaluations"] += len(cases)
     ctx.cov["traces_validated_against_impl"] += len(cases) - len(rand_events)
     ctx.lane("M1", zones={"%s/%s/%s" % k: v for k, v in sorted(zones.items())})
-    # count boundary cases (cheap re-parse is avoided: use zone/st classes from workers)
-    ctx.cov["distinct_nontrivial"] = sum(v for (op, zone, st), v in zones.items() if zone != "accept" or st != "ok") \
-        + sum(1 for i in range(len(cases)) if res[i].get("op") in ("substitute", "insert", "multisubstitute")
-              and res[i].get("zone") == "accept" and i % 1 == 0 and ("start |-> 0" in cases[i]["state"]
-                                                                     or "start |-> 9999" in cases[i]["state"]))
-
+    for i in range(len(cases)):
+        if res[i].get("nontrivial"):
+            ctx.nontrivial(i)
     # ---- M2: random calls through the trace spec (and M1's randomize results, which are relational)
     n_ev = 6000 if ctx.quick else 120000
     shards = 16
